@@ -4,6 +4,7 @@ import (
 	"context"
 	"encoding/json"
 	"fmt"
+	"math"
 	"slices"
 	"strings"
 
@@ -292,9 +293,16 @@ func (r *PaginatedResourceRepository[ResourceType, OptionsType]) Paginate(
 		if !isValidOrder(v.Order) {
 			return nil, NewErrInvalidQuery("invalid cursor: missing or invalid order")
 		}
+		// the page size of a cursor is client-supplied too; the paginators convert it to an int
+		if v.PageSize > math.MaxInt32 {
+			return nil, NewErrInvalidQuery("invalid cursor: page size exceeds maximum allowed value")
+		}
 	case ColumnPaginatedQuery[OptionsType]:
 		if !isValidOrder(v.Order) {
 			return nil, NewErrInvalidQuery("invalid cursor: missing or invalid order")
+		}
+		if v.PageSize > math.MaxInt32 {
+			return nil, NewErrInvalidQuery("invalid cursor: page size exceeds maximum allowed value")
 		}
 	case InitialPaginatedQuery[OptionsType]:
 
